@@ -22,8 +22,16 @@ def run(tier, seed):
     rc3 = common.run_enum(PID, tier, seed, "MC_StrLit", "lexer", ["StrLit_q.cfg" if q else "StrLit_t.cfg"],
         [("StrLit_w_%s.cfg" % d, d) for d in ("octal_takes_decimal_digits", "continuation_cr_only", "unknown_escape_keeps_backslash", "raw_cr_kept")], actions=[], rule="", assumptions=[])
     ev3 = json.load(open(os.path.join(vlib.EVID, PID + ".json")))
-    rc2 = rc2 or rc3
+    os.rename(os.path.join(vlib.WORK, PID, "report.json"), os.path.join(vlib.WORK, PID, "report_strlit.json"))
+    rc4 = common.run_enum(PID, tier, seed, "MC_Literals", "lexer", ["Literals_q.cfg" if q else "Literals_t.cfg"],
+        [("Literals_w_%s.cfg" % d, d) for d in ("hex_nul_not_ws", "name_hash_literal", "real_needs_leading_digit")], actions=[], rule="", assumptions=[])
+    ev4 = json.load(open(os.path.join(vlib.EVID, PID + ".json")))
+    rc2 = rc2 or rc3 or rc4
     c1, c2, c3 = ev1["coverage"], ev2["coverage"], ev3["coverage"]
+    c4 = ev4["coverage"]
+    for k in ("states", "transitions", "traces_validated_against_impl", "evaluations", "distinct_nontrivial"):
+        c3[k] += c4[k]
+    c3["known_findings_hit"] = sorted(set(c3["known_findings_hit"]) | set(c4["known_findings_hit"]))
     cov = {
         "states": c1["states"] + c2["states"] + c3["states"], "transitions": c1["transitions"] + c2["transitions"] + c3["transitions"],
         "traces_validated_against_impl": c1["traces_validated_against_impl"] + c2["traces_validated_against_impl"] + c3["traces_validated_against_impl"],
@@ -37,18 +45,22 @@ def run(tier, seed):
                 "harness' reference parser (refparse.rs) on the object's own text; checked: value, exact consumption (Lexer::get_pos), the follower parses next; "
                 "non-trivial = more than one item or a separator other than a space; literal strings (spec/StrLit.tla): every byte string of length <= 5 (quick) / 6 (thorough) over "
                 "{backslash ( ) 1 7 8 n x CR LF} after an opening parenthesis, value and end position computed by the spec's transcription of ISO 32000-1 7.3.4.2 "
-                "(named escapes, 1-3 octal digits, line continuation, ignored backslash, end-of-line normalisation, balanced parentheses); unterminated input must be rejected",
+                "(named escapes, 1-3 octal digits, line continuation, ignored backslash, end-of-line normalisation, balanced parentheses); unterminated input must be rejected; "
+                "other literals (spec/Literals.tla): every byte string of length <= 4 (quick) / 6 (thorough) over small alphabets as a hexadecimal string (digits in both cases, "
+                "white-space incl. NUL ignored, odd digit padded), as a name (#xx decoding, end at a delimiter) and as a number token (integer / real / not a number), "
+                "class and value computed by the spec; for tokens that are not valid literals only the absence of a panic is required",
         "exhaustive": True,
         "tokens": {k: c1[k] for k in ("tlc_runs", "deviation_witnesses_refuted", "harness_counters", "cases_replayed")},
         "spellings": {k: c2[k] for k in ("tlc_runs", "deviation_witnesses_refuted", "harness_counters", "cases_replayed")},
         "literal_strings": {k: c3[k] for k in ("tlc_runs", "deviation_witnesses_refuted", "harness_counters", "cases_replayed")},
+        "other_literals": {k: c4[k] for k in ("tlc_runs", "deviation_witnesses_refuted", "harness_counters", "cases_replayed")},
         "known_findings_hit": sorted(set(c1["known_findings_hit"]) | set(c2["known_findings_hit"]) | set(c3["known_findings_hit"])),
     }
     vlib.write_evidence(PID, tier, seed, "model_checking", cov,
         ["integer tokens outside the 32-bit range, names that are not UTF-8 after # decoding and generations > 65535 are not generated (DESIGN 5.21)",
          "decimal -> f32 rounding is not modelled; reals are compared after conversion to f32",
          "the reference parser (harness/src/refparse.rs) is written from ISO 32000-1 7.2-7.3 independently of the library"],
-        time.time() - t0, ev1.get("violations", 0) + ev2.get("violations", 0) + ev3.get("violations", 0))
+        time.time() - t0, ev1.get("violations", 0) + ev2.get("violations", 0) + ev3.get("violations", 0) + ev4.get("violations", 0))
     return 1 if (rc1 or rc2) else 0
 
 
